@@ -78,6 +78,9 @@ def sub_item_variants():
     yield 'identity-ac-in-rq', b'\x59\x00' + H(2 + 3) + H(3) + b'abc'
     yield 'version-ok', b'\x55\x00' + H(6) + b'VER_10'
     yield 'version-nonascii', b'\x55\x00' + H(6) + b'VER\xe9_1'
+    yield 'version-utf8', b'\x55\x00' + H(7) + 'VERé_1'.encode('utf8')           # well-formed UTF-8, not ASCII
+    yield 'classuid-utf8', b'\x52\x00' + H(6) + '1.é.3'.encode('utf8')
+    yield 'role-uid-utf8', b'\x54\x00' + H(2 + 6 + 2) + H(6) + '1.é.3'.encode('utf8') + b'\x01\x01'
     yield 'version-empty', b'\x55\x00' + H(0)
     yield 'classuid-second', b'\x52\x00' + H(5) + b'1.2.3'
     yield 'classuid-nonascii', b'\x52\x00' + H(5) + b'1.\xe9.3'
@@ -128,6 +131,7 @@ def mutators(b, rng):
         yield 'called-latin1-16', b[:10] + b'\xe9' * 16 + b[26:]
         yield 'calling-latin1', b[:26] + b'M\xfcller' + b[32:]
         yield 'uid-nonascii', b[:80] + b'\x80\x81' + b[82:]
+        yield 'appctx-utf8', b[:80] + 'é'.encode('utf8') + b[82:]                   # application context name: valid UTF-8, not ASCII
         yield 'protocol-version-0', b[:6] + b'\0\0' + b[8:]
         yield 'no-items', _set_len(b[:74], 68)
         yield 'short-fixed-part', _set_len(b[:40], 34)
